@@ -18,13 +18,81 @@ from harness.common import WORK, Ctx, MachineryError, cleanup_tlc, parse_tlc_val
 from harness.pool import run_tasks
 
 LEVEL = "model_checking"
-STANDINS = {"J2O_OptFacts.tla": '---- MODULE J2O_OptFacts ----\nPassNames == <<"name_fix">>\n====\n'}
+STANDINS = {
+    "J2O_OptFacts.tla": '---- MODULE J2O_OptFacts ----\nPassNames == <<"name_fix">>\n====\n',
+    "J2O_VocabFacts.tla": '---- MODULE J2O_VocabFacts ----\nEXTENDS TLC\nLayoutSets == ("A" :> {"Relu"})\nClassOf == ("Relu" :> "pointwise")\n====\n',
+}
 
 
 def _replay_job(graphs):
     from harness.graphreplay import replay_graphs
 
     return replay_graphs(graphs)
+
+
+def _vocab_facts_job():
+    from harness.vocabreplay import impl_sets, op_class
+
+    sets = impl_sets()
+    return {"sets": sets, "classes": {o: op_class(o) for v in sets.values() for o in v}}
+
+
+def _vocab_replay_job(graphs):
+    from harness.vocabreplay import replay_vocab
+
+    return replay_vocab(graphs)
+
+
+def vocabulary_sweep(ctx: Ctx, prop: str = "C02") -> int:
+    """The op-name sets the real passes consult are facts: TLC (J2O_Vocab) checks every member commutes
+    with a layout change by its operator class; every member is instantiated in the pattern
+    neighbourhoods and pushed through the real passes with ORT before / after."""
+    from harness.vocabreplay import vocab_graphs
+
+    fj = run_tasks([{"fn": "harness.checks.c02:_vocab_facts_job", "args": {}, "timeout": 600}], nworkers=1, timeout=600)[0][1]
+    if fj.get("status") != "ok":
+        raise MachineryError(f"vocabulary facts job failed: {str(fj)[:400]}")
+    sets, classes = fj["result"]["sets"], fj["result"]["classes"]
+    layout = {k: v for k, v in sets.items() if "INTEGER_VALUE" not in k}
+    ctx.extra["optimizer_vocabularies"] = {k: len(v) for k, v in sets.items()}
+    ctx.extra["vocabulary_unclassified_ops"] = sorted(o for o, c in classes.items() if c == "unknown")
+    if layout:
+        facts = ("---- MODULE J2O_VocabFacts ----\nEXTENDS TLC\nLayoutSets == " + tla({k: set(v) for k, v in layout.items()})
+                 + "\nClassOf == " + tla({o: classes[o] for v in layout.values() for o in v}) + "\n====\n")
+        rv = run_tlc("J2O_Vocab", "MC_Vocab.cfg", gen_files={"J2O_VocabFacts.tla": facts}, timeout=900, coverage=False)
+        tlc_must_pass(rv, "J2O_Vocab")
+        ctx.add_tlc(rv, "J2O_Vocab")
+        if rv.violated == "ClassSemantics":
+            raise MachineryError("J2O_Vocab: class semantics self-test failed")
+        if rv.violated:
+            m = [l for l in rv.output.splitlines() if "pick =" in l]
+            ctx.extra["vocabulary_tlc_counterexample"] = m[0].strip() if m else rv.violated
+        cleanup_tlc(rv)
+    graphs = vocab_graphs(sets, ctx.quick)
+    n = 14
+    chunks = [graphs[i::n] for i in range(n)]
+    res = run_tasks([{"fn": "harness.checks.c02:_vocab_replay_job", "args": {"graphs": c}, "timeout": 1500} for c in chunks if c], nworkers=n, timeout=1500)
+    done = unb = confirmed = 0
+    for task, out in res:
+        if out.get("status") != "ok":
+            raise MachineryError(f"vocabulary replay worker failed: {str(out)[:600]}")
+        for rec in out["result"]:
+            done += 1
+            if rec["status"] == "unbuildable":
+                unb += 1
+                ctx.extra.setdefault("vocabulary_uninstantiable", {})[rec["sig"]["label"]] = rec["why"][:100]
+                continue
+            g = task["args"]["graphs"][rec["i"]]
+            ctx.count(("vocab", json.dumps(rec["sig"], sort_keys=True), json.dumps([g["sh"], g.get("perm"), g.get("mid")])), nontrivial=bool(rec["changed_passes"]))
+            if rec["status"] == "violation":
+                confirmed += 1
+                sig = {"engine": "vocab_replay", "op": rec["sig"]["op"], "pattern": rec["sig"]["pattern"], "first_bad_pass": rec["bad"]["pass"], "how": rec["bad"]["how"]}
+                ctx.violation(sig, f"optimizer pass {rec['bad']['pass']} moved {rec['sig']['label']} (listed in {rec['sig']['sets']}) across a {'Transpose' if rec['sig']['pattern'] == 'tpair' else 'Reshape'} pair and changed the output ({rec['bad']['how']}: {rec['bad']['detail'][:100]})", {"graph": g, "bad": rec["bad"]})
+    ctx.extra["vocabulary_graphs_replayed"] = done
+    ctx.extra["vocabulary_graphs_unbuildable"] = unb
+    if ctx.extra.get("vocabulary_tlc_counterexample") and not confirmed:
+        ctx.extra["conformance_drift_vocab"] = "J2O_Vocab reports a non-commuting member but no real rewrite changed an output (the set may not be used for folding)"
+    return done
 
 
 def _pass_names_job():
@@ -159,6 +227,7 @@ def run(ctx: Ctx) -> None:
     # B
     graphs = emit_patterns(ctx.tier)
     n = replay_patterns(ctx, graphs)
+    n += vocabulary_sweep(ctx)
     # C
     m = corpus_optimizer_traces(ctx, 260 if ctx.quick else 100000, rng)
     ctx.cov["traces_validated_against_impl"] = n + m
